@@ -25,6 +25,7 @@ type IndEntity struct {
 	Make    func(c []int) any  // c == nil: the default constructor
 	Implied func(inst any) int // warm-up implied by the formula, for the types without IdlePeriod()
 	NoScale bool               // configuration is derived by the constructor; do not scale fields
+	Unset   bool               // an instance without configuration (see UnsetIndicators)
 	ZeroAt  int                // k > 0: configuration value k-1 is a displacement, not a window, and may be 0
 }
 
@@ -476,8 +477,19 @@ func makeMa(kind, period int) trend.Ma[F] {
 
 var indByName = map[string]*IndEntity{}
 
+// UnsetIndicators: instances as the plain constructors of the window types leave them - no period
+// set (0). Their output is degenerate and no warm-up contract applies, but they are instances:
+// C09 (same result as a fresh instance, however often and concurrently used) draws them too.
+var UnsetIndicators = []*IndEntity{
+	{Name: "trend.MovingMaxUnset", Sig: "c", NOut: 1, NoScale: true, Unset: true, Make: func(c []int) any { return trend.NewMovingMax[F]() }},
+	{Name: "trend.MovingMinUnset", Sig: "c", NOut: 1, NoScale: true, Unset: true, Make: func(c []int) any { return trend.NewMovingMin[F]() }},
+}
+
 func init() {
 	for _, e := range Indicators {
+		indByName[e.Name] = e
+	}
+	for _, e := range UnsetIndicators {
 		indByName[e.Name] = e
 	}
 }
@@ -548,9 +560,18 @@ func makeInd(e *IndEntity, cfg []int, scale int) *IndInstance {
 	return ii
 }
 
+// skipIdleDecl: C09 hands half of its instances to the pipelines without having called any of
+// their methods first (a getter that initialises or normalises something on first use would
+// otherwise always have run before the first Compute).
+var skipIdleDecl bool
+
 // declareIdle reads the warm-up the instance declares (IdlePeriod(), or the one its formula implies).
 func (ii *IndInstance) declareIdle() {
 	v := reflect.ValueOf(ii.Inst)
+	if ii.E.Unset || skipIdleDecl {
+		ii.Idle = 0 // not asked: the instance is handed over exactly as its constructor left it
+		return
+	}
 	if m := v.MethodByName("IdlePeriod"); m.IsValid() {
 		ii.Idle = int(m.Call(nil)[0].Int())
 	} else if ii.E.Implied != nil {
